@@ -719,11 +719,18 @@ class Link:
     def __init__(self, faults, log):
         self.faults = {}
         self.silence = {}  # kind -> first occurrence from which every PDU of that kind is dropped
+        self.cut = {}  # direction -> number of PDUs after which the direction is silent
+        self.dir_count = {"dst": 0, "src": 0}
         for f in faults or []:
             kind, occ, action = f[0], f[1], f[2]
             arg = f[3] if len(f) > 3 else 0
             if action == "dropall":
                 self.silence[kind] = min(occ, self.silence.get(kind, occ))
+                continue
+            if action == "cut":
+                # kind is "TO_DST" / "TO_SRC": that direction goes silent after `occ` PDUs
+                d = "dst" if kind == "TO_DST" else "src"
+                self.cut[d] = min(occ, self.cut.get(d, occ))
                 continue
             self.faults.setdefault((kind, occ), []).append((action, arg))
         self.log = log
@@ -746,6 +753,10 @@ class Link:
         self.delayed[to] = still
         acts = list(self.faults.get((kind, occ), []))
         if kind in self.silence and occ >= self.silence[kind]:
+            acts.append(("drop", 0))
+        nth = self.dir_count[to]
+        self.dir_count[to] = nth + 1
+        if to in self.cut and nth >= self.cut[to]:
             acts.append(("drop", 0))
         copies = [[pdu, 0]]
         dropped = False
@@ -1038,6 +1049,7 @@ class Sim:
             return self.outcome
         pacing = list(self.case.get("pacing") or [])
         tick_mode = self.case.get("tick_mode", "after")
+        polls = self.case.get("extra_polls") or (0, 0)  # idle state-machine calls after every regular call
         quiet = 0
         while self.steps < max_steps:
             if self.src.internal_error or self.dst.internal_error:
@@ -1049,7 +1061,11 @@ class Sim:
                 act = self.step(side, with_pdu=op in ("s", "d"))
                 continue
             a = self.step("src")
+            for _ in range(polls[0]):
+                a = self.step("src", with_pdu=False) or a
             b = self.step("dst")
+            for _ in range(polls[1]):
+                b = self.step("dst", with_pdu=False) or b
             if a or b:
                 quiet = 0
                 continue
